@@ -17,7 +17,7 @@ MUbOut(out) == out \in {"ub:SIGILL", "ub:SIGFPE", "ub:SIGSEGV", "ub:SIGBUS", "ub
 Verdict(e, menu) ==
     CASE e.e = "StReset" -> [d |-> "ok", nt |-> FALSE, cls |-> <<"StReset">>]
       [] e.e = "StLoad" ->
-           [d |-> (IF Le(Abs(J(e.v)), TMaxRaw(menu[e.r])) THEN "ok" ELSE "bad_event"), nt |-> FALSE, cls |-> <<"StLoad">>]
+           [d |-> (IF InRegRange(J(e.v), menu[e.r]) THEN "ok" ELSE "bad_event"), nt |-> FALSE, cls |-> <<"StLoad">>]
       [] e.e = "StStep" ->
            LET ta == menu[e.a]  tb == menu[e.b]  td == menu[e.d]
                ra == J(e.va)  rb == J(e.vb)
@@ -123,11 +123,11 @@ AsCodedM(e, menu) ==
         LET td == menu[e.d]  f == e.x
             v == FloatToInt("tie_to_pos_inf", FVal(f), 53, 64, IntT(128, 1))
         IN RoundingOf(td) = "tie_to_pos_inf" /\ TExp(td) = 0 /\ f.c = "fin" /\ ~v.ub /\ e.out = "ok" /\ J(e.after) = v.v
-           /\ Le(Abs(v.v), TMaxRaw(td))
+           /\ InRegRange(v.v, td)
     ELSE IF e.e # "StFromInt" THEN FALSE
     ELSE LET td == menu[e.d]  kv == J(e.v)  ex == TExp(td) IN
          IF ex > 0 THEN
-             LET tr == TruncDiv(kv, Pow2(ex)) IN e.out = "ok" /\ J(e.after) = tr /\ Le(Abs(tr), TMaxRaw(td))
+             LET tr == TruncDiv(kv, Pow2(ex)) IN e.out = "ok" /\ J(e.after) = tr /\ InRegRange(tr, td)
          ELSE IF BitLen(kv) - ex > 63 THEN
              CASE OverflowOf(td) = "throwing" -> e.out = (IF kv.n THEN "throw:negative overflow" ELSE "throw:positive overflow") /\ e.after = e.before
                [] OverflowOf(td) = "trapping" -> e.out = (IF kv.n THEN "trap:negative overflow" ELSE "trap:positive overflow") /\ e.after = e.before
